@@ -274,6 +274,131 @@ static void dump_all(kdump_ctx_t *ctx)
 	if (first_ent) putchar('-');
 }
 
+/* ---- "CHAIN ...": white-box view of the dictionaries behind clones ---- */
+static char *attr_path_str(const struct attr_data *d)
+{
+	const struct attr_data *st[64];
+	int n = 0, i;
+	size_t len = 2;
+	char *r, *q;
+	for (; d && d->parent && n < 64; d = d->parent) st[n++] = d;
+	if (!n) return strdup("-");
+	for (i = 0; i < n; ++i) len += 2 * strlen(st[i]->template->key) + 2;
+	q = r = malloc(len);
+	for (i = n - 1; i >= 0; --i) {
+		const char *k = st[i]->template->key;
+		if (!*k) *q++ = '-';
+		for (; *k; ++k) q += sprintf(q, "%02x", (unsigned char) *k);
+		if (i) *q++ = '.';
+	}
+	*q = 0;
+	return r;
+}
+
+static int cmpstr(const void *a, const void *b)
+{
+	return strcmp(*(char *const *) a, *(char *const *) b);
+}
+
+/* print the paths hashed in DICT, sorted; report entries whose parent is in another table */
+static void chain_table(const char *tag, struct attr_dict *dict, int misplaced)
+{
+	struct attr_data **ent = NULL, *d;
+	char **names;
+	size_t n = 0, cap = 0, i, j;
+	unsigned h;
+	for (h = 0; h < ATTR_HASH_SIZE; ++h)
+		hlist_for_each_entry(d, &dict->attr.table[h], list) {
+			if (n == cap) { cap = cap ? 2 * cap : 256; ent = realloc(ent, cap * sizeof *ent); }
+			ent[n++] = d;
+		}
+	names = malloc((n + 1) * sizeof *names);
+	for (i = 0; i < n; ++i) names[i] = attr_path_str(ent[i]);
+	if (misplaced)
+		for (i = 0; i < n; ++i) {
+			if (!ent[i]->parent) continue;
+			for (j = 0; j < n; ++j) if (ent[j] == ent[i]->parent) break;
+			if (j == n) printf(" M:%s", names[i]);
+		}
+	qsort(names, n, sizeof *names, cmpstr);
+	printf(" %s", tag);
+	for (i = 0; i < n; ++i) { printf("%s%s", i ? "," : "", names[i]); free(names[i]); }
+	free(names);
+	free(ent);
+}
+
+static void run_chain_case(char **ops, int nops)
+{
+	kdump_ctx_t *ctx[MAXCTX] = { 0 };
+	struct attr_dict *dreg[MAXCTX + 1] = { 0 };
+	int nctx = 1, ndreg = 1, i, k;
+	ctx[0] = kdump_new();
+	dreg[0] = ctx[0]->dict;
+	chain_table("I:", dreg[0], 0);
+	for (i = 0; i < nops; ++i) {
+		char *f[6] = { 0 };
+		int nf = 0, c;
+		char *p = ops[i];
+		while (nf < 6) { f[nf++] = p; p = strchr(p, ':'); if (!p) break; *p++ = 0; }
+		c = nf > 1 ? atoi(f[1]) : 0;
+		if (c < 0 || c >= nctx) {	/* a malformed (shrunk) history: the slot is taken, as in the model */
+			if ((f[0][0] == 'X' || f[0][0] == 'N') && nctx < MAXCTX) ctx[nctx++] = NULL;
+			continue;
+		}
+		if (!strcmp(f[0], "X") || !strcmp(f[0], "N")) {
+			if (nctx >= MAXCTX) continue;
+			ctx[nctx] = ctx[c] ? kdump_clone(ctx[c], f[0][0] == 'X' ? KDUMP_CLONE_XLAT : 0) : NULL;
+			if (ctx[nctx] && f[0][0] == 'X') {
+				for (k = 0; k < ndreg; ++k)	/* a reused address */
+					if (dreg[k] == ctx[nctx]->dict) dreg[k] = NULL;
+				dreg[ndreg++] = ctx[nctx]->dict;
+			}
+			++nctx;
+		} else if (!strcmp(f[0], "V") && nf == 4) {
+			int j = atoi(f[2]), n = atoi(f[3]);
+			char *txt = malloc(24 * (size_t) n + 1), *q = txt;
+			kdump_attr_t a;
+			if (!ctx[c]) { free(txt); continue; }
+			for (k = j; k < j + n; ++k) q += sprintf(q, "K%d=v%d\n", k, k);
+			a.type = KDUMP_BLOB;
+			a.val.blob = kdump_blob_new_dup(txt, q - txt);
+			free(txt);
+			if (kdump_set_attr(ctx[c], "linux.vmcoreinfo.raw", &a) != KDUMP_OK)
+				printf(" E:V");
+		} else if (!strcmp(f[0], "S") && nf == 3) {
+			if (!ctx[c]) continue;
+			if (kdump_set_number_attr(ctx[c], "file.set.number", atoi(f[2])) != KDUMP_OK)
+				printf(" E:S");
+		} else if (!strcmp(f[0], "F")) {
+			if (!ctx[c]) continue;
+			kdump_free(ctx[c]);
+			ctx[c] = NULL;
+		}
+	}
+	{
+		int reach[MAXCTX + 1] = { 0 };
+		for (i = 0; i < nctx; ++i) {
+			struct attr_dict *d;
+			if (!ctx[i]) continue;
+			printf(" K%d:", i);
+			for (d = ctx[i]->dict; d; d = d->fallback) {
+				for (k = 0; k < ndreg; ++k) if (dreg[k] == d) break;
+				printf("%s%d", d == ctx[i]->dict ? "" : ">", k < ndreg ? k : -1);
+				if (k < ndreg) reach[k] = 1;
+			}
+		}
+		for (k = 0; k < ndreg; ++k)
+			if (reach[k]) {
+				char tag[16];
+				sprintf(tag, "D%d:", k);
+				chain_table(tag, dreg[k], 1);
+			}
+	}
+	fflush(stdout);
+	for (i = 0; i < nctx; ++i)
+		if (ctx[i]) kdump_free(ctx[i]);
+}
+
 static int forked;	/* we are the child that continues a history after a re-open */
 
 static void run_case(char **ops, int nops)
@@ -504,7 +629,8 @@ int main(int argc, char **argv)
 			if (nw == cap) { cap = cap ? 2 * cap : 64; w = realloc(w, cap * sizeof *w); }
 			w[nw++] = tok;
 		}
-		run_case(w, nw);
+		if (nw && !strcmp(w[0], "CHAIN")) run_chain_case(w + 1, nw - 1);
+		else run_case(w, nw);
 		putchar('\n');
 		free(w);
 	}
